@@ -404,7 +404,7 @@ func (env *Zlisp) StandardSetup() {
 	rangeMacro := `(defmac range [key value myhash & body]
   ^(let [n (len ~myhash)]
       (for [(def i 0) (< i n) (def i (+ i 1))]
-        (begin
+        (newScope
           (mdef (quote ~key) (quote ~value) (hpair ~myhash i))
           ~@body))))`
 	_, err = env.EvalString(rangeMacro)
